@@ -15,6 +15,8 @@ IDENTITY_CALLS = (
     "<core::ptr::non_null::NonNull<T> as core::convert::From<&mut T>>::from",
     "<core::ptr::non_null::NonNull<T> as core::convert::From<&T>>::from",
     "<core::ptr::non_null::NonNull<T>>::as_ptr",
+    "<core::ptr::non_null::NonNull<T>>::as_ref",
+    "<core::ptr::non_null::NonNull<T>>::as_mut",
     "<core::ptr::non_null::NonNull<T>>::new_unchecked",
     "<core::ptr::non_null::NonNull<T>>::cast",
     "<*const T>::cast",
@@ -72,6 +74,14 @@ def project(root, pl):
         while names and names[0] == "*" and root[0] == "addr" and (len(root) < 4 or root[3] == "raw"):
             root = root[1]
             names = names[1:]
+        # a field of an enum value that was just built, behind the downcast to its own variant: `(Ok(x) as Ok).0` is `x`
+        if len(names) >= 2 and names[0] == "?" and root[0] == "agg" and root[1] == "adt" and len(root) > 5 and len(root[4]) >= 1:
+            dc = next((pe for pe in pl["p"] if isinstance(pe, dict) and "dc" in pe), None)
+            fld = next((pe for pe in pl["p"] if isinstance(pe, dict) and "f" in pe), None)
+            if dc is not None and fld is not None and (root[3] is None or str(dc.get("name", dc.get("dc"))) == str(root[3])) and isinstance(fld["f"], int) and fld["f"] < len(root[4]):
+                root, names = root[4][fld["f"]], names[2:]
+                if not names:
+                    return root
         # a field of a struct value that was just built: `Allocation { inner: p }.inner` is `p` (also behind `&`: `(*&a).inner`)
         for _ in range(4):
             r2, n2 = root, names
@@ -342,6 +352,12 @@ def path_cases(F, b, max_paths=48):
             go(t["target"], env, conds, seen)
         elif k == "switch":
             d = opx(t["discr"], env)
+            if d[0] == "discr" and d[1][0] == "agg" and d[1][1] == "adt" and len(d[1]) > 6 and isinstance(d[1][6], int):
+                # the discriminant of a value built on this very path (`Ok(x)` matched right away): only its own arm is feasible
+                vi = d[1][6]
+                tg = next((tg2 for v, tg2 in t["arms"] if v == vi), t["otherwise"])
+                go(tg, env, conds, seen)
+                return
             by_tgt = {}
             for v, tg in t["arms"]:
                 by_tgt.setdefault(tg, []).append(v)
